@@ -43,6 +43,29 @@ STRENGTHENED = {
     'C17_m3': 'limited arrays spelled two-dimensionally (size x size2), directly and through the limited patch rule',
     'C17_m4': 'after every node rename a later rule addressed to the new name (must be ignored)',
     'C20_m4': 'both inputs of a run define a node of the same name that the patch file restructures',
+    'C03_m5': 'canary sequences: a block after a dynamic field whose alignment comes only from the flag of a small optional '
+              'that is not its first member',
+    'C05_m6': 'canary sequences: dynamic structs ending in a small optional (size 5/6, alignment 4) and arrays of them',
+    'C07_m6': 'canonical, extended, truncated and padding-garbage inputs are also decoded through the std::vector overload',
+    'C08_m6': 'every schema is also cut into an included and an including file compiled in one run; same table',
+    'C09_m5': 'canary sequences: own dynamic array + nested unlimited tail, as the last member of another struct',
+    'C11_m6': '-0.0 among the float values (and sign-aware default detection in the sparse builder)',
+    'C13_m5': 'option cases where an output / include path exists but is a regular file',
+    'C14_m5': 'constant and enumerator names made of hexadecimal digits only (C0, BEEF, A1, AD, F00D) and values that '
+              'are nothing but another name',
+    'C15_m5': 'constant expressions with the literal first (2 * N, 1 + N, 0x1 + N, parenthesised)',
+    'C16_m5': 'arrangement declaration-less-file: a comment-only file included by every other file and given as input',
+    'C16_m6': 'arrangement files-named-like-types: each file is called after the first definition it holds',
+    'C17_m5': "one message's patch rules are interleaved with the rules of other messages",
+    'C17_m6': 'the member a remove rule deletes may be the very first member',
+    'C18_m5': 'a schema file that does not build is halved (fresh worker per half, 5 levels) so that the types that do '
+              'build are still rendered and compared',
+    'C19_m5': 'every Python worker starts with single-order encodes of default floats before -0.0 is encoded in both '
+              'orders; two cases in three are preceded by a single-order encode',
+    'C20_m5': 'variants rotate over shards (the quick tier had no isar group at all); both isar inputs use the same '
+              'expression texts over constants of different values',
+    'C20_m6': 'sack group: main.hpp including its sibling "types.h", run from several working directories, one of which '
+              'holds an unrelated types.h',
 }
 
 
